@@ -1,0 +1,494 @@
+//go:build verif
+
+package codec
+
+// Contracts for the deductive verifier in /verif (govc). This file contains
+// comments only: with or without the build tag "verif" the compiled package is
+// identical. Syntax: see /verif/DESIGN.md section 4. Spec functions (head,
+// encInt16, seekK, decIntK, payloadEnd, ...) are defined in /verif/specs/wire.gvs
+// from the wire-format description, not from this package.
+//
+// Representation predicates. A Reader is valid when its byte-slice view and
+// the bytes.Reader it wraps show the same content and the cursor is not negative.
+//
+//@ pred validB(b) = b != nil && b.buf != nil
+//@ pred validR(b) = b != nil && b.buf != nil && b.ref == b.buf.src && b.buf.i >= 0
+//
+// ------------------------------------------------------------------ raw big-endian helpers
+//
+//@ func bWriteU8
+//@   requires w != nil
+//@   modifies w.bytes
+//@   ensures [C02] err == nil && w.bytes == old(w.bytes) ++ [data]
+//@   safety [C02]
+//
+//@ func bWriteU16
+//@   requires w != nil
+//@   modifies w.bytes
+//@   ensures [C02] err == nil && w.bytes == old(w.bytes) ++ beEnc2(data)
+//@   safety [C02]
+//
+//@ func bWriteU32
+//@   requires w != nil
+//@   modifies w.bytes
+//@   ensures [C02] err == nil && w.bytes == old(w.bytes) ++ beEnc4(data)
+//@   safety [C02]
+//
+//@ func bWriteU64
+//@   requires w != nil
+//@   modifies w.bytes
+//@   ensures [C02] err == nil && w.bytes == old(w.bytes) ++ beEnc8(data)
+//@   safety [C02]
+//
+//@ func bReadU8
+//@   requires r != nil && data != nil && r.i >= 0
+//@   modifies r.i, *data
+//@   ensures [C02,C06] old(r.i) < len(r.src) ==> (err == nil && *data == r.src[old(r.i)] && r.i == old(r.i) + 1)
+//@   ensures [C06] old(r.i) >= len(r.src) ==> err != nil
+//@   ensures [C04,C05] r.i >= old(r.i)
+//@   safety [C05]
+//
+//@ func bReadU16
+//@   requires r != nil && data != nil && r.i >= 0
+//@   modifies r.i, *data
+//@   ensures [C02,C06] old(r.i) + 2 <= len(r.src) ==> (err == nil && *data == beDec2(r.src[old(r.i) : old(r.i) + 2]) && r.i == old(r.i) + 2)
+//@   ensures [C06] old(r.i) + 2 > len(r.src) ==> err != nil
+//@   ensures [C04,C05] r.i >= old(r.i)
+//@   safety [C05]
+//
+//@ func bReadU32
+//@   requires r != nil && data != nil && r.i >= 0
+//@   modifies r.i, *data
+//@   ensures [C02,C06] old(r.i) + 4 <= len(r.src) ==> (err == nil && *data == beDec4(r.src[old(r.i) : old(r.i) + 4]) && r.i == old(r.i) + 4)
+//@   ensures [C06] old(r.i) + 4 > len(r.src) ==> err != nil
+//@   ensures [C04,C05] r.i >= old(r.i)
+//@   safety [C05]
+//
+//@ func bReadU64
+//@   requires r != nil && data != nil && r.i >= 0
+//@   modifies r.i, *data
+//@   ensures [C02,C06] old(r.i) + 8 <= len(r.src) ==> (err == nil && *data == beDec8(r.src[old(r.i) : old(r.i) + 8]) && r.i == old(r.i) + 8)
+//@   ensures [C06] old(r.i) + 8 > len(r.src) ==> err != nil
+//@   ensures [C04,C05] r.i >= old(r.i)
+//@   safety [C05]
+//
+// ------------------------------------------------------------------ writers (C02: bytes == wire format)
+//
+//@ func (*Buffer).WriteHead
+//@   requires validB(b) && ty < 16
+//@   modifies b.buf.bytes
+//@   ensures [C02,C03] err == nil && b.buf.bytes == old(b.buf.bytes) ++ head(ty, tag)
+//@   safety [C02]
+//
+//@ func (*Buffer).WriteInt8
+//@   requires validB(b)
+//@   modifies b.buf.bytes
+//@   ensures [C02,C03] err == nil && b.buf.bytes == old(b.buf.bytes) ++ encInt8(tag, data)
+//@   safety [C02]
+//
+//@ func (*Buffer).WriteInt16
+//@   requires validB(b)
+//@   modifies b.buf.bytes
+//@   ensures [C02,C03] err == nil && b.buf.bytes == old(b.buf.bytes) ++ encInt16(tag, data)
+//@   safety [C02]
+//
+//@ func (*Buffer).WriteInt32
+//@   requires validB(b)
+//@   modifies b.buf.bytes
+//@   ensures [C02,C03] err == nil && b.buf.bytes == old(b.buf.bytes) ++ encInt32(tag, data)
+//@   safety [C02]
+//
+//@ func (*Buffer).WriteInt64
+//@   requires validB(b)
+//@   modifies b.buf.bytes
+//@   ensures [C02,C03] err == nil && b.buf.bytes == old(b.buf.bytes) ++ encInt64(tag, data)
+//@   safety [C02]
+//
+//@ func (*Buffer).WriteUint8
+//@   requires validB(b)
+//@   modifies b.buf.bytes
+//@   ensures [C02,C03] err == nil && b.buf.bytes == old(b.buf.bytes) ++ encInt16(tag, data)
+//@   safety [C02]
+//
+//@ func (*Buffer).WriteUint16
+//@   requires validB(b)
+//@   modifies b.buf.bytes
+//@   ensures [C02,C03] err == nil && b.buf.bytes == old(b.buf.bytes) ++ encInt32(tag, data)
+//@   safety [C02]
+//
+//@ func (*Buffer).WriteUint32
+//@   requires validB(b)
+//@   modifies b.buf.bytes
+//@   ensures [C02,C03] err == nil && b.buf.bytes == old(b.buf.bytes) ++ encInt64(tag, data)
+//@   safety [C02]
+//
+//@ func (*Buffer).WriteBool
+//@   requires validB(b)
+//@   modifies b.buf.bytes
+//@   ensures [C02,C03] err == nil && b.buf.bytes == old(b.buf.bytes) ++ encBool(tag, data)
+//@   safety [C02]
+//
+//@ func (*Buffer).WriteFloat32
+//@   requires validB(b)
+//@   modifies b.buf.bytes
+//@   ensures [C02,C03] err == nil && b.buf.bytes == old(b.buf.bytes) ++ encF32(tag, data)
+//@   safety [C02]
+//
+//@ func (*Buffer).WriteFloat64
+//@   requires validB(b)
+//@   modifies b.buf.bytes
+//@   ensures [C02,C03] err == nil && b.buf.bytes == old(b.buf.bytes) ++ encF64(tag, data)
+//@   safety [C02]
+//
+//@ func (*Buffer).WriteString
+//@   requires validB(b) && len(data) < 4294967296
+//@   modifies b.buf.bytes
+//@   ensures [C02,C03] err == nil && b.buf.bytes == old(b.buf.bytes) ++ encString(tag, data)
+//@   safety [C02]
+//
+//@ func (*Buffer).WriteSliceUint8
+//@   requires validB(b)
+//@   modifies b.buf.bytes
+//@   ensures [C03] err == nil && b.buf.bytes == old(b.buf.bytes) ++ data
+//@   safety [C03]
+//
+//@ func (*Buffer).WriteSliceInt8
+//@   requires validB(b)
+//@   modifies b.buf.bytes
+//@   ensures [C03] err == nil && b.buf.bytes == old(b.buf.bytes) ++ data
+//@   safety [C03]
+//
+//@ func (*Buffer).WriteBytes
+//@   requires validB(b)
+//@   modifies b.buf.bytes
+//@   ensures [C03] err == nil && b.buf.bytes == old(b.buf.bytes) ++ data
+//@   safety [C03]
+//
+// ------------------------------------------------------------------ reader: heads, cursor, skipping (C04)
+//
+//@ func (*Reader).readHead
+//@   requires validR(b)
+//@   let src = b.buf.src
+//@   let i0 = b.buf.i
+//@   modifies b.buf.i
+//@   ensures [C02,C04,C06] hdOk(src, i0) ==> (err == nil && ty == hdTy(src, i0) && tag == hdTag(src, i0) && b.buf.i == hdNext(src, i0))
+//@   ensures [C04,C06] !hdOk(src, i0) ==> (err != nil && b.buf.i == hdFailPos(src, i0))
+//@   ensures [C04,C05] b.buf.i >= i0
+//@   safety [C05]
+//
+//@ func (*Reader).unreadHead
+//@   requires validR(b) && b.buf.i >= headLen(curTag)
+//@   modifies b.buf.i
+//@   ensures [C04] b.buf.i == old(b.buf.i) - headLen(curTag)
+//@   safety [C05]
+//
+//@ func (*Reader).Skip
+//@   requires validR(b)
+//@   modifies b.buf.i
+//@   ensures [C04] n <= 0 ==> b.buf.i == old(b.buf.i)
+//@   ensures [C04] n > 0 ==> b.buf.i == old(b.buf.i) + n
+//@   safety [C05]
+//
+//@ func (*Reader).Next
+//@   requires validR(b)
+//@   let src = b.buf.src
+//@   let i0 = b.buf.i
+//@   modifies b.buf.i
+//@   ensures [C02] n <= 0 ==> (len(result) == 0 && b.buf.i == i0)
+//@   ensures [C02] (n > 0 && i0 + n <= len(src)) ==> (result == src[i0 : i0 + n] && b.buf.i == i0 + n)
+//@   ensures [C06] n > 0 ==> b.buf.i == i0 + n
+//@   ensures [C06] (n > 0 && i0 + n > len(src)) ==> len(result) < n
+//@   safety [C05]
+//
+//@ func (*Reader).skipField
+//@   requires validR(b)
+//@   let src = b.buf.src
+//@   let i0 = b.buf.i
+//@   modifies b.buf.i
+//@   ensures [C04] payloadEnd(src, ty, i0) >= 0 ==> (err == nil && b.buf.i == payloadEnd(src, ty, i0))
+//@   ensures [C04,C05] b.buf.i >= i0
+//@   decreases len(b.buf.src) - b.buf.i, 3
+//@   safety [C05]
+//
+//@ func (*Reader).skipFieldList
+//@   requires validR(b)
+//@   let src = b.buf.src
+//@   let i0 = b.buf.i
+//@   modifies b.buf.i
+//@   ensures [C04] payloadEnd(src, LIST, i0) >= 0 ==> (err == nil && b.buf.i == payloadEnd(src, LIST, i0))
+//@   ensures [C04,C05] b.buf.i >= i0
+//@   loop 0 invariant validR(b) && b.buf.i >= i0 && i >= 0
+//@   loop 0 invariant [C04] payloadEnd(src, LIST, i0) >= 0 ==> (length >= 0 && i <= length && fieldsEnd(src, length - i, b.buf.i) == payloadEnd(src, LIST, i0))
+//@   loop 0 decreases length - i
+//@   decreases len(b.buf.src) - b.buf.i, 2
+//@   safety [C05]
+//
+//@ func (*Reader).skipFieldMap
+//@   requires validR(b)
+//@   let src = b.buf.src
+//@   let i0 = b.buf.i
+//@   modifies b.buf.i
+//@   ensures [C04] payloadEnd(src, MAP, i0) >= 0 ==> (err == nil && b.buf.i == payloadEnd(src, MAP, i0))
+//@   ensures [C04,C05] b.buf.i >= i0
+//@   loop 0 invariant validR(b) && b.buf.i >= i0 && i >= 0
+//@   loop 0 invariant [C04] payloadEnd(src, MAP, i0) >= 0 ==> (length >= 0 && length <= 1073741823 && i <= 2 * length && fieldsEnd(src, 2 * length - i, b.buf.i) == payloadEnd(src, MAP, i0))
+//@   loop 0 decreases s32(length * 2) - i
+//@   decreases len(b.buf.src) - b.buf.i, 2
+//@   safety [C05]
+//
+//@ func (*Reader).skipFieldSimpleList
+//@   requires validR(b)
+//@   let src = b.buf.src
+//@   let i0 = b.buf.i
+//@   modifies b.buf.i
+//@   ensures [C04] payloadEnd(src, SimpleList, i0) >= 0 ==> (err == nil && b.buf.i == payloadEnd(src, SimpleList, i0))
+//@   ensures [C04,C05] b.buf.i >= i0
+//@   decreases len(b.buf.src) - b.buf.i, 2
+//@   safety [C05]
+//
+//@ func (*Reader).SkipToStructEnd
+//@   requires validR(b)
+//@   let src = b.buf.src
+//@   let i0 = b.buf.i
+//@   modifies b.buf.i
+//@   ensures [C04] structEnd(src, i0) >= 0 ==> (err == nil && b.buf.i == structEnd(src, i0))
+//@   ensures [C04,C05] b.buf.i >= i0
+//@   loop 0 invariant validR(b) && b.buf.i >= i0
+//@   loop 0 invariant [C04] structEnd(src, i0) >= 0 ==> structEnd(src, b.buf.i) == structEnd(src, i0)
+//@   loop 0 decreases len(src) - b.buf.i
+//@   decreases len(b.buf.src) - b.buf.i, 2
+//@   safety [C05]
+//
+//@ func (*Reader).SkipToNoCheck
+//@   requires validR(b)
+//@   let src = b.buf.src
+//@   let i0 = b.buf.i
+//@   modifies b.buf.i
+//@   ensures [C02,C04,C06] seekK(src, i0, tag) == 0 ==> (result0 && result1 == seekTy(src, i0, tag) && err == nil && b.buf.i == seekP(src, i0, tag))
+//@   ensures [C04,C06] (seekK(src, i0, tag) == 1 || seekK(src, i0, tag) == 2) ==> (require ? err != nil : (!result0 && err == nil))
+//@   ensures [C04] (seekK(src, i0, tag) == 1 && !require && seekCanon(src, i0, tag)) ==> b.buf.i == seekP(src, i0, tag)
+//@   ensures [C04] (seekK(src, i0, tag) == 2 && !require) ==> b.buf.i == seekP(src, i0, tag)
+//@   ensures [C04,C05] b.buf.i >= i0
+//@   loop 0 invariant validR(b) && b.buf.i >= i0
+//@   loop 0 invariant [C02,C04,C06] seekK(src, i0, tag) != 3 ==> seekK(src, b.buf.i, tag) == seekK(src, i0, tag) && seekP(src, b.buf.i, tag) == seekP(src, i0, tag) && seekTy(src, b.buf.i, tag) == seekTy(src, i0, tag) && seekCanon(src, b.buf.i, tag) == seekCanon(src, i0, tag)
+//@   loop 0 decreases len(src) - b.buf.i
+//@   decreases len(b.buf.src) - b.buf.i, 0
+//@   safety [C05]
+//
+//@ func (*Reader).SkipTo
+//@   requires validR(b)
+//@   let src = b.buf.src
+//@   let i0 = b.buf.i
+//@   modifies b.buf.i
+//@   ensures [C04,C06] (seekK(src, i0, tag) == 0 && seekTy(src, i0, tag) == ty) ==> (result0 && err == nil && b.buf.i == seekP(src, i0, tag))
+//@   ensures [C06] (seekK(src, i0, tag) == 0 && seekTy(src, i0, tag) != ty) ==> err != nil
+//@   ensures [C04,C06] (seekK(src, i0, tag) == 1 || seekK(src, i0, tag) == 2) ==> (require ? err != nil : (!result0 && err == nil))
+//@   ensures [C04] (seekK(src, i0, tag) == 1 && !require && seekCanon(src, i0, tag)) ==> b.buf.i == seekP(src, i0, tag)
+//@   ensures [C04,C05] b.buf.i >= i0
+//@   safety [C05]
+//
+// ------------------------------------------------------------------ readers of primitives (C02, C06; strict reference decoder)
+//
+//@ func (*Reader).ReadInt8
+//@   requires validR(b) && data != nil
+//@   let src = b.buf.src
+//@   let i0 = b.buf.i
+//@   modifies b.buf.i, *data
+//@   ensures [C02,C06] decIntK(src, i0, tag, require, 1) == 0 ==> (err == nil && *data == decIntV(src, i0, tag) && b.buf.i == decIntP(src, i0, tag))
+//@   ensures [C04,C06] decIntK(src, i0, tag, require, 1) == 1 ==> (err == nil && *data == old(*data))
+//@   ensures [C04] (decIntK(src, i0, tag, require, 1) == 1 && seekK(src, i0, tag) == 1 && seekCanon(src, i0, tag)) ==> b.buf.i == seekP(src, i0, tag)
+//@   ensures [C06] decIntK(src, i0, tag, require, 1) == 2 ==> err != nil
+//@   ensures [C04,C05] b.buf.i >= i0
+//@   decreases len(b.buf.src) - b.buf.i, 1
+//@   safety [C05]
+//
+//@ func (*Reader).ReadInt16
+//@   requires validR(b) && data != nil
+//@   let src = b.buf.src
+//@   let i0 = b.buf.i
+//@   modifies b.buf.i, *data
+//@   ensures [C02,C06] decIntK(src, i0, tag, require, 2) == 0 ==> (err == nil && *data == decIntV(src, i0, tag) && b.buf.i == decIntP(src, i0, tag))
+//@   ensures [C04,C06] decIntK(src, i0, tag, require, 2) == 1 ==> (err == nil && *data == old(*data))
+//@   ensures [C04] (decIntK(src, i0, tag, require, 2) == 1 && seekK(src, i0, tag) == 1 && seekCanon(src, i0, tag)) ==> b.buf.i == seekP(src, i0, tag)
+//@   ensures [C06] decIntK(src, i0, tag, require, 2) == 2 ==> err != nil
+//@   ensures [C04,C05] b.buf.i >= i0
+//@   decreases len(b.buf.src) - b.buf.i, 1
+//@   safety [C05]
+//
+//@ func (*Reader).ReadInt32
+//@   requires validR(b) && data != nil
+//@   let src = b.buf.src
+//@   let i0 = b.buf.i
+//@   modifies b.buf.i, *data
+//@   ensures [C02,C06] decIntK(src, i0, tag, require, 4) == 0 ==> (err == nil && *data == decIntV(src, i0, tag) && b.buf.i == decIntP(src, i0, tag))
+//@   ensures [C04,C06] decIntK(src, i0, tag, require, 4) == 1 ==> (err == nil && *data == old(*data))
+//@   ensures [C04] (decIntK(src, i0, tag, require, 4) == 1 && seekK(src, i0, tag) == 1 && seekCanon(src, i0, tag)) ==> b.buf.i == seekP(src, i0, tag)
+//@   ensures [C06] decIntK(src, i0, tag, require, 4) == 2 ==> err != nil
+//@   ensures [C04,C05] b.buf.i >= i0
+//@   decreases len(b.buf.src) - b.buf.i, 1
+//@   safety [C05]
+//
+//@ func (*Reader).ReadInt64
+//@   requires validR(b) && data != nil
+//@   let src = b.buf.src
+//@   let i0 = b.buf.i
+//@   modifies b.buf.i, *data
+//@   ensures [C02,C06] decIntK(src, i0, tag, require, 8) == 0 ==> (err == nil && *data == decIntV(src, i0, tag) && b.buf.i == decIntP(src, i0, tag))
+//@   ensures [C04,C06] decIntK(src, i0, tag, require, 8) == 1 ==> (err == nil && *data == old(*data))
+//@   ensures [C04] (decIntK(src, i0, tag, require, 8) == 1 && seekK(src, i0, tag) == 1 && seekCanon(src, i0, tag)) ==> b.buf.i == seekP(src, i0, tag)
+//@   ensures [C06] decIntK(src, i0, tag, require, 8) == 2 ==> err != nil
+//@   ensures [C04,C05] b.buf.i >= i0
+//@   decreases len(b.buf.src) - b.buf.i, 1
+//@   safety [C05]
+//
+//@ func (*Reader).ReadUint8
+//@   requires validR(b) && data != nil
+//@   let src = b.buf.src
+//@   let i0 = b.buf.i
+//@   modifies b.buf.i, *data
+//@   ensures [C02,C06] decIntK(src, i0, tag, require, 2) == 0 ==> (err == nil && *data == u8(decIntV(src, i0, tag)) && b.buf.i == decIntP(src, i0, tag))
+//@   ensures [C04,C06] decIntK(src, i0, tag, require, 2) == 1 ==> (err == nil && *data == old(*data))
+//@   ensures [C06] decIntK(src, i0, tag, require, 2) == 2 ==> err != nil
+//@   ensures [C04,C05] b.buf.i >= i0
+//@   safety [C05]
+//
+//@ func (*Reader).ReadUint16
+//@   requires validR(b) && data != nil
+//@   let src = b.buf.src
+//@   let i0 = b.buf.i
+//@   modifies b.buf.i, *data
+//@   ensures [C02,C06] decIntK(src, i0, tag, require, 4) == 0 ==> (err == nil && *data == u16(decIntV(src, i0, tag)) && b.buf.i == decIntP(src, i0, tag))
+//@   ensures [C04,C06] decIntK(src, i0, tag, require, 4) == 1 ==> (err == nil && *data == old(*data))
+//@   ensures [C06] decIntK(src, i0, tag, require, 4) == 2 ==> err != nil
+//@   ensures [C04,C05] b.buf.i >= i0
+//@   safety [C05]
+//
+//@ func (*Reader).ReadUint32
+//@   requires validR(b) && data != nil
+//@   let src = b.buf.src
+//@   let i0 = b.buf.i
+//@   modifies b.buf.i, *data
+//@   ensures [C02,C06] decIntK(src, i0, tag, require, 8) == 0 ==> (err == nil && *data == u32(decIntV(src, i0, tag)) && b.buf.i == decIntP(src, i0, tag))
+//@   ensures [C04,C06] decIntK(src, i0, tag, require, 8) == 1 ==> (err == nil && *data == old(*data))
+//@   ensures [C06] decIntK(src, i0, tag, require, 8) == 2 ==> err != nil
+//@   ensures [C04,C05] b.buf.i >= i0
+//@   safety [C05]
+//
+//@ func (*Reader).ReadBool
+//@   requires validR(b) && data != nil
+//@   let src = b.buf.src
+//@   let i0 = b.buf.i
+//@   modifies b.buf.i, *data
+//@   ensures [C02,C06] decIntK(src, i0, tag, require, 1) == 0 ==> (err == nil && *data == (decIntV(src, i0, tag) != 0) && b.buf.i == decIntP(src, i0, tag))
+//@   ensures [C04,C06] decIntK(src, i0, tag, require, 1) == 1 ==> (err == nil && *data == old(*data))
+//@   ensures [C06] decIntK(src, i0, tag, require, 1) == 2 ==> err != nil
+//@   ensures [C04,C05] b.buf.i >= i0
+//@   safety [C05]
+//
+//@ func (*Reader).ReadFloat32
+//@   requires validR(b) && data != nil
+//@   let src = b.buf.src
+//@   let i0 = b.buf.i
+//@   modifies b.buf.i, *data
+//@   ensures [C02,C06] decF32K(src, i0, tag, require) == 0 ==> (err == nil && *data == decF32V(src, i0, tag) && b.buf.i == decIntP(src, i0, tag))
+//@   ensures [C04,C06] decF32K(src, i0, tag, require) == 1 ==> (err == nil && *data == old(*data))
+//@   ensures [C06] decF32K(src, i0, tag, require) == 2 ==> err != nil
+//@   ensures [C04,C05] b.buf.i >= i0
+//@   safety [C05]
+//
+//@ func (*Reader).ReadFloat64
+//@   requires validR(b) && data != nil
+//@   let src = b.buf.src
+//@   let i0 = b.buf.i
+//@   modifies b.buf.i, *data
+//@   ensures [C02,C06] decF64K(src, i0, tag, require) == 0 ==> (err == nil && *data == decF64V(src, i0, tag) && b.buf.i == decIntP(src, i0, tag))
+//@   ensures [C04,C06] decF64K(src, i0, tag, require) == 1 ==> (err == nil && *data == old(*data))
+//@   ensures [C06] decF64K(src, i0, tag, require) == 2 ==> err != nil
+//@   ensures [C04,C05] b.buf.i >= i0
+//@   safety [C05]
+//
+//@ func (*Reader).ReadString
+//@   requires validR(b) && data != nil
+//@   let src = b.buf.src
+//@   let i0 = b.buf.i
+//@   modifies b.buf.i, *data
+//@   ensures [C02,C06] decStrK(src, i0, tag, require) == 0 ==> (err == nil && *data == decStrV(src, i0, tag) && b.buf.i == decStrP(src, i0, tag))
+//@   ensures [C04,C06] decStrK(src, i0, tag, require) == 1 ==> (err == nil && *data == old(*data))
+//@   ensures [C06] decStrK(src, i0, tag, require) == 2 ==> err != nil
+//@   ensures [C04,C05] b.buf.i >= i0
+//@   safety [C05]
+//
+// ------------------------------------------------------------------ raw byte-vector readers (C05, C06)
+//
+//@ func (*Reader).ReadSliceInt8
+//@   requires validR(b) && data != nil
+//@   let src = b.buf.src
+//@   let i0 = b.buf.i
+//@   let allocbudget = max(0, len(b.buf.src) - b.buf.i)
+//@   modifies b.buf.i, *data
+//@   allocates
+//@   ensures [C06] len <= 0 ==> (err == nil && hdr(*data) == old(hdr(*data)) && b.buf.i == i0)
+//@   ensures [C06] (len > 0 && err == nil) ==> (i0 + len <= len(src) && *data == src[i0 : i0 + len] && b.buf.i == i0 + len)
+//@   ensures [C03] (len > 0 && i0 + len <= len(src)) ==> err == nil
+//@   ensures [C04,C05] b.buf.i >= i0
+//@   safety [C05]
+//
+//@ func (*Reader).ReadSliceUint8
+//@   requires validR(b) && data != nil
+//@   let src = b.buf.src
+//@   let i0 = b.buf.i
+//@   let allocbudget = max(0, len(b.buf.src) - b.buf.i)
+//@   modifies b.buf.i, *data
+//@   allocates
+//@   ensures [C06] len <= 0 ==> (err == nil && hdr(*data) == old(hdr(*data)) && b.buf.i == i0)
+//@   ensures [C06] (len > 0 && err == nil) ==> (i0 + len <= len(src) && *data == src[i0 : i0 + len] && b.buf.i == i0 + len)
+//@   ensures [C03] (len > 0 && i0 + len <= len(src)) ==> err == nil
+//@   ensures [C04,C05] b.buf.i >= i0
+//@   safety [C05]
+//
+//@ func (*Reader).ReadBytes
+//@   requires validR(b) && data != nil
+//@   let src = b.buf.src
+//@   let i0 = b.buf.i
+//@   let allocbudget = max(0, len(b.buf.src) - b.buf.i)
+//@   modifies b.buf.i, *data
+//@   allocates
+//@   ensures [C06] err == nil ==> (len >= 0 && i0 + len <= len(src) && *data == src[i0 : i0 + len] && b.buf.i == i0 + len)
+//@   ensures [C04,C05] b.buf.i >= i0
+//@   safety [C05]
+//
+// ------------------------------------------------------------------ constructors and views
+//
+//@ func getTypeStr
+//@   requires t >= 0
+//@   pure
+//@   safety [C05]
+//
+//@ func NewReader
+//@   allocates
+//@   ensures [C02,C05] validR(result) && fresh(result) && result.buf.src == data && result.buf.i == 0
+//@   safety [C05]
+//
+//@ func (*Reader).Reset
+//@   requires b != nil && b.buf != nil
+//@   modifies b.buf.i, b.buf.src, b.ref
+//@   ensures [C02,C05] validR(b) && b.buf.src == data && b.buf.i == 0
+//@   safety [C05]
+//
+//@ func (*Buffer).ToBytes
+//@   requires validB(b)
+//@   pure
+//@   ensures [C02,C03] result == b.buf.bytes
+//@   safety [C02]
+//
+//@ func (*Buffer).Len
+//@   requires validB(b)
+//@   pure
+//@   ensures [C02,C03] result == len(b.buf.bytes)
+//@   safety [C02]
+//
+//@ func (*Buffer).Reset
+//@   requires validB(b)
+//@   modifies b.buf.bytes
+//@   ensures [C02,C03] len(b.buf.bytes) == 0
+//@   safety [C02]
